@@ -1582,7 +1582,7 @@ fn index_case(ctx: &mut Ctx, sub: u64, only: Option<(String, usize)>) {
 
 pub fn run(ctx: &mut Ctx) {
     if let Some(case) = ctx.replay_only.clone() {
-        replay(ctx, &case);
+        if !super::c13_more::replay(ctx, &case) { replay(ctx, &case); }
         return;
     }
     // a panic inside a case (an assumption of the harness about written files no longer holds, e.g.
@@ -1612,6 +1612,7 @@ pub fn run(ctx: &mut Ctx) {
         case(ctx, "bgzfbig", sub, |c| bgzf_big_case(c, sub, None));
         case(ctx, "bambig", sub, |c| bam_big_case(c, sub, None));
     }
+    super::c13_more::run(ctx);
 }
 
 /// Hand-written boundary cases, run before anything random: one request per branch of the model
